@@ -43,6 +43,15 @@ func (f *Fboundp) Call(s *slip.Scope, args slip.List, depth int) slip.Object {
 	if !ok {
 		slip.TypePanic(s, depth, "symbol", args[0], "symbol")
 	}
+	// A package qualified symbol is looked up the same way a call to the
+	// function is, pkg:name for exported functions only and pkg::name for any
+	// function of the package.
+	if pkg, _, _ := unpackSymbol(sym); pkg != nil {
+		if slip.FindFunc(string(sym)) != nil {
+			return slip.True
+		}
+		return nil
+	}
 	if slip.CurrentPackage.GetFunc(string(sym)) != nil {
 		return slip.True
 	}
